@@ -786,7 +786,7 @@ class CouplingGraph(Collection[tuple[int, int]]):
             for q1, q2 in graph:
                 vertices.add(q1)
                 vertices.add(q2)
-            renum = {q: i for i, q in enumerate(vertices)}
+            renum = {q: i for i, q in enumerate(sorted(vertices))}
         else:
             renum = relabeling
 
